@@ -389,12 +389,12 @@ def input_texts(inp):
 
 
 # ---------------------------------------------------------------- the check
-def judge(ctx, key, fields, inp, results, stats, origin):
+def judge(ctx, key, fields, inp, results, stats, origin, ext=None):
     """property oracle: the four styles agree (values / reject, dump text)"""
     uw = uses_whole(inp, key)
     ref_style = "dataclass"
     ref = results[ref_style]
-    replay = {"kind": "styles", "key": key, "fields": fields, "input": inp}
+    replay = {"kind": "styles", "key": key, "fields": fields, "input": inp} if ext is None else {"kind": "ext", "ext": ext, "input": inp}
     for st in STYLES:
         r = results[st]
         if r[0] == "exc":
@@ -538,6 +538,185 @@ def run_group(ctx, key, fields, inputs, parsers, out, stats, origin):
                                                 "real": list(results[st])}, default=repr) + "\n")
 
 
+# ---------------------------------------------------------------- extended field lists (search stage only)
+# A NESTED sub-group that is not the last field, and group defaults declared through a default instance / default dict
+# (`add_argument("--g", type=DC, default=DC(...))`, `add_class_arguments(C, "g", default={...})`) that differ from the class's own
+# defaults; the dotted and inner-parser styles state the same defaults on each argument.  The Lean model of C07 knows flat field
+# lists only: these lists go through the oracle (four real parsers must agree) and the table oracle, not through the model
+# (DESIGN appendix C: constructors the current model stage does not know are routed to the search stage and counted separately).
+EXT_DEFAULTS = {
+    "int": [0, 3, -2, 7], "str": ["s0", "w", "k"], "bool": [False, True], "float": [1.5, -0.25, 2.5],
+    "optInt": [None, 4, 9], "listInt": [[], [1, 2], [3]],
+}
+
+
+def gen_ext(rng):
+    """{"key", "leaves": [{"name" (dotted below the key), "ty", "cls" (class default), "def" (declared default)}], "order": [...], "sub": name}"""
+    key = rng.choice(KEY_POOL)
+    names = rng.sample(NAME_POOL, rng.randint(3, 5))
+    sub = names[0]
+    outer = names[1:]
+    pos = rng.randint(0, len(outer) - 1)              # at least one field follows the sub-group
+    order = outer[:pos] + [sub] + outer[pos:]
+    subleaves = rng.sample(["xx", "yy", "zed"], rng.randint(1, 2))
+    leaves = []
+    for n in order:
+        for leafname in ([n + "." + x for x in subleaves] if n == sub else [n]):
+            ty = rng.choice(TYPES)
+            c = rng.choice(EXT_DEFAULTS[ty])
+            d = rng.choice([x for x in EXT_DEFAULTS[ty] if x != c]) if rng.random() < 0.75 else c
+            leaves.append({"name": leafname, "ty": ty, "cls": c, "def": d})
+    after = [l for l in leaves if "." not in l["name"] and order.index(l["name"]) > order.index(sub)]
+    if all(l["def"] == l["cls"] for l in after):       # make sure a default declared AFTER the sub-group differs from the class default
+        l = after[0]
+        l["def"] = [x for x in EXT_DEFAULTS[l["ty"]] if x != l["cls"]][0]
+    return {"key": key, "sub": sub, "order": order, "leaves": leaves}
+
+
+def build_four_ext(ext):
+    from jsonargparse import ActionConfigFile, ActionParser, ArgumentParser
+
+    key, sub = ext["key"], ext["sub"]
+
+    def node(l, which):
+        return {"k": "leaf", "ty": l["ty"], "req": False, "def": l[which]}
+
+    def fields_for(tag):
+        out = []
+        for n in ext["order"]:
+            if n == sub:
+                inner = [[l["name"].split(".", 1)[1], node(l, "cls")] for l in ext["leaves"] if l["name"].startswith(sub + ".")]
+                out.append([n, {"k": "group", "style": "dataclass", "whole": True, "fields": inner, "cls": "DCI" + tag}])
+            else:
+                out.append([n, node(next(l for l in ext["leaves"] if l["name"] == n), "cls")])
+        return out
+
+    spec = [["dc", {"k": "group", "style": "dataclass", "whole": True, "fields": fields_for("1"), "cls": "DC1"}],
+            ["pg", {"k": "group", "style": "class", "whole": True, "fields": fields_for("2"), "cls": "PG1"}]]
+    mod, src = base.write_module(spec)
+    changed = [l for l in ext["leaves"] if l["def"] != l["cls"]]
+    parsers = {}
+    for st in STYLES:
+        p = ArgumentParser(exit_on_error=False, env_prefix="APP", default_env=False)
+        p.add_argument("--cfg", action=ActionConfigFile)
+        if st == "dotted":
+            for l in ext["leaves"]:
+                p.add_argument("--%s.%s" % (key, l["name"]), type=base.py_type(node(l, "def"), mod), default=copy.deepcopy(l["def"]))
+        elif st == "dataclass":
+            kw = {}
+            subkw = {l["name"].split(".", 1)[1]: copy.deepcopy(l["def"]) for l in changed if l["name"].startswith(sub + ".")}
+            for n in ext["order"]:
+                if n == sub:
+                    if subkw:
+                        kw[n] = mod.DCI1(**subkw)
+                else:
+                    l = next(x for x in ext["leaves"] if x["name"] == n)
+                    if l["def"] != l["cls"]:
+                        kw[n] = copy.deepcopy(l["def"])
+            p.add_argument("--" + key, type=mod.DC1, default=mod.DC1(**kw))
+        elif st == "class":
+            d = {}
+            for n in ext["order"]:
+                if n == sub:
+                    sd = {l["name"].split(".", 1)[1]: copy.deepcopy(l["def"]) for l in changed if l["name"].startswith(sub + ".")}
+                    if sd:
+                        d[n] = sd
+                else:
+                    l = next(x for x in ext["leaves"] if x["name"] == n)
+                    if l["def"] != l["cls"]:
+                        d[n] = copy.deepcopy(l["def"])
+            p.add_class_arguments(mod.PG1, key, default=d)
+        else:
+            inner = ArgumentParser(exit_on_error=False)
+            for n in ext["order"]:
+                if n == sub:
+                    sp = ArgumentParser(exit_on_error=False)
+                    for l in ext["leaves"]:
+                        if l["name"].startswith(sub + "."):
+                            sp.add_argument("--" + l["name"].split(".", 1)[1], type=base.py_type(node(l, "def"), mod), default=copy.deepcopy(l["def"]))
+                    inner.add_argument("--" + n, action=ActionParser(parser=sp))
+                else:
+                    l = next(x for x in ext["leaves"] if x["name"] == n)
+                    inner.add_argument("--" + n, type=base.py_type(node(l, "def"), mod), default=copy.deepcopy(l["def"]))
+            p.add_argument("--" + key, action=ActionParser(parser=inner))
+        parsers[st] = p
+    return parsers, src
+
+
+def nest_set(d, dotted, v):
+    parts = dotted.split(".")
+    for s in parts[:-1]:
+        d = d.setdefault(s, {})
+    d[parts[-1]] = v
+
+
+def gen_ext_input(rng, ext):
+    key = ext["key"]
+    flat = [{"name": l["name"], "ty": l["ty"], "def": l["def"]} for l in ext["leaves"]]
+    mode = rng.choice(["argv", "argv", "empty", "string", "object", "env"])
+    inp = {"mode": "argv" if mode == "empty" else mode, "argv": [], "env": {}, "tree": None}
+    good = {"int": ["1", "-3", "12"], "str": ["hello", "a b"], "bool": ["true", "false"], "float": ["1.5", "2"], "optInt": ["null", "4"], "listInt": ["[1,2]", "[]", "[4]"]}
+    native = {"int": [1, -3], "str": ["hello", "w"], "bool": [True, False], "float": [1.5, 2], "optInt": [None, 4], "listInt": [[1, 2], []]}
+    bad = rng.random() < 0.2
+    if mode == "argv":
+        for f in flat:
+            if rng.random() < 0.4:
+                inp["argv"].append("--%s.%s=%s" % (key, f["name"], rng.choice(RAW[f["ty"]] if bad else good[f["ty"]])))
+            if f["ty"] == "listInt" and rng.random() < 0.5:
+                inp["argv"].append("--%s.%s+=%s" % (key, f["name"], rng.choice(["3", "[4,5]"])))
+        if rng.random() < 0.2:
+            g = {}
+            for f in flat:
+                if rng.random() < 0.5:
+                    nest_set(g, f["name"], copy.deepcopy(rng.choice(native[f["ty"]])))
+            inp["argv"].insert(rng.randint(0, len(inp["argv"])), "--%s=%s" % (key, json.dumps(g)))
+        if bad and rng.random() < 0.4:
+            inp["argv"].append("--%s.%s.zz9=1" % (key, ext["sub"]))
+    elif mode in ("string", "object"):
+        g = {}
+        for f in flat:
+            if rng.random() < 0.5:
+                nest_set(g, f["name"], copy.deepcopy(rng.choice(NATIVE[f["ty"]] if bad else native[f["ty"]])))
+        if bad and rng.random() < 0.4:
+            nest_set(g, ext["sub"] + ".zz9", 1)
+        inp["tree"] = {key: g}
+    elif mode == "env":
+        for f in flat:
+            if rng.random() < 0.4:
+                inp["env"]["APP_%s__%s" % (key.upper(), f["name"].upper().replace(".", "__"))] = rng.choice(good[f["ty"]])
+    return inp
+
+
+def run_ext(ctx, ext, inputs, stats, origin):
+    """oracle only: the four real parsers agree on tables (dests / option strings / defaults / required) and on every input"""
+    try:
+        parsers, src = build_four_ext(ext)
+    except Exception as ex:  # noqa: BLE001
+        raise MachineryError("the four parsers of an extended field list could not be built for %r: %r" % (ext, ex))
+    key = ext["key"]
+    tabs = {st: real_table(parsers[st], key) for st in STYLES}
+    ctx.count(4)
+    for st in STYLES[1:]:
+        a, b = dict(tabs["dotted"], whole=None), dict(tabs[st], whole=None)
+        a["entries"] = sorted(a["entries"], key=lambda e: e["dest"])
+        b["entries"] = sorted(b["entries"], key=lambda e: e["dest"])
+        if json.dumps(a, sort_keys=True) != json.dumps(b, sort_keys=True):
+            diff = [(x, y) for x, y in zip(a["entries"], b["entries"]) if x != y][:3]
+            ctx.violation("the %s style declares different defaults / options than the dotted style for a group with a nested sub-group and declared "
+                          "group defaults: %s" % (st, json.dumps(diff, default=repr)[:300]),
+                          {"kind": "ext", "ext": ext, "input": {"mode": "argv", "argv": [], "env": {}, "tree": None}})
+            stats["violations"] += 1
+    fields = [{"name": l["name"], "ty": l["ty"], "def": l["def"]} for l in ext["leaves"]]
+    for inp in inputs:
+        results = {st: run_input(parsers[st], inp) for st in STYLES}
+        ctx.count(4)
+        ctx.hist("mode", "ext-" + inp["mode"])
+        ctx.hist("verdict", "/".join(results[st][0] for st in STYLES))
+        if results["dataclass"][0] == "ok":
+            ctx.nontrivial(json.dumps(["ext", ext, inp], sort_keys=True, default=repr))
+        judge(ctx, key, fields, inp, results, stats, origin, ext=ext)
+
+
 def run(ctx: Ctx):
     repo_python_path()
     ctx.rule = ("field lists of 1-4 fields over {int,str,bool,float,Optional[int],List[int]} with/without defaults, declared in the four styles as real "
@@ -546,6 +725,8 @@ def run(ctx: Ctx):
                 "required, non-mapping group); compared: as_dict()/ArgumentError and dump text across the four styles and with the model; "
                 "non-trivial = an input accepted with a non-empty group; distinct by canonical JSON of (key, fields, input)")
     ctx.assumptions = [
+        "field lists with a nested sub-group and group defaults declared through a default instance / dict are search-stage only (oracle across the four "
+        "real parsers, counted in search_only_field_lists): the Lean model of C07 covers flat field lists",
         "the YAML loader is an oracle: every text occurring in an input is loaded by jsonargparse's load_value and handed to the model",
         "field names do not start with '_' and Optional fields have a default (the signature styles cannot express a required Optional parameter)",
         "the order of parameters is the same in the four declarations (parameters without default first)",
@@ -554,9 +735,24 @@ def run(ctx: Ctx):
     stats = {"violations": 0, "known": 0, "disagree": 0}
     from ..lib import corpus as corpus_mod
 
-    corp = [(c["key"], c["fields"], c["inputs"]) for c in corpus_mod.load(ctx.prop)]
+    corpus_all = corpus_mod.load(ctx.prop)
+    corp = [(c["key"], c["fields"], c["inputs"]) for c in corpus_all if "fields" in c]
     if corp:
         run_groups(ctx, corp, stats, "corpus")
+    n_ext = 0
+    for c in corpus_all:
+        if "ext" in c:
+            run_ext(ctx, c["ext"], c["inputs"], stats, "corpus")
+            n_ext += 1
+    for _ in range(ctx.budget(40, 500)):
+        ext = gen_ext(ctx.rng)
+        run_ext(ctx, ext, [{"mode": "argv", "argv": [], "env": {}, "tree": None}] + [gen_ext_input(ctx.rng, ext) for _ in range(ctx.budget(8, 16))], stats, "generated")
+        n_ext += 1
+        if n_ext == 1 + sum(1 for c in corpus_all if "ext" in c):
+            ctx.sample({"extended": ext})
+        if ctx.elapsed() > ctx.budget(30, 300):
+            break
+    ctx.extra["search_only_field_lists"] = n_ext
     n_groups = ctx.budget(80, 1200) * (2 if ctx.search_boost > 1 else 1)
     n_inputs = ctx.budget(25, 40)
     chunk = ctx.budget(20, 50)
@@ -603,6 +799,20 @@ def replay(ctx: Ctx, body):
             if json.dumps(dict(tabs[st], whole=None), sort_keys=True) != json.dumps(dict(tabs["dotted"], whole=None), sort_keys=True):
                 bad = 1
         return bad
+    if r.get("kind") == "ext":
+        parsers, src = build_four_ext(r["ext"])
+        print("generated module:\n" + src)
+        print("declared defaults:", json.dumps([[l["name"], l["def"], "class default", l["cls"]] for l in r["ext"]["leaves"]]))
+        print("input:", json.dumps(r["input"]))
+        res = {st: run_input(parsers[st], r["input"]) for st in STYLES}
+        for st in STYLES:
+            print("%-10s %s" % (st, summary(res[st])))
+        ref = res["dataclass"]
+        differ = [st for st in STYLES if res[st][0] != ref[0] or (ref[0] == "ok" and res[st][1:] != ref[1:])]
+        if differ == ["dotted"] and uses_whole(r["input"], r["ext"]["key"]) and ctx.is_open(F_WHOLE):
+            print("the only difference falls into the open known finding class", F_WHOLE, "(not a new violation)")
+            return 0
+        return 1 if differ or any(res[st][0] == "exc" for st in STYLES) else 0
     if r.get("kind") != "styles":
         print("nothing to replay (broken tie without a failing input):", json.dumps(r, default=repr)[:1500])
         return 1
